@@ -90,6 +90,8 @@ Final ==
      \/ /\ Cur.ires = "ok" /\ ToSet(Cur.items) = Pairs(content) /\ Len(Cur.items) = Cardinality(DOMAIN content)
         /\ Cur.keysOK
         /\ Cur.shape = Canon(content)    \* final root = root of the sequential execution (single version)
+        \* lookups of keys that no update of the run touches returned their value every time
+        /\ (("constbad" \in DOMAIN Cur) => Cur.constbad = 0)
   /\ l' = l + 1 /\ UNCHANGED <<content, pend, judged>>
 
 CNext == Reset \/ Call \/ Ret \/ Final \/ \E g \in DOMAIN pend : Lin(g)
